@@ -17,7 +17,7 @@ import kani_unit
 import registry
 
 VERIF = os.path.dirname(os.path.dirname(os.path.abspath(__file__)))
-BUILD = os.path.join(VERIF, "build")
+BUILD = os.environ.get("HVX_BUILD", os.path.join(VERIF, "build"))
 
 TWIN_GROUP = {
     "merge": ["aci", "changed"], "lattice_from": ["from"], "is_bot": ["bot", "botnd"], "is_bot_ok": ["bot", "botnd"],
